@@ -46,6 +46,21 @@ def isTarget (d : Node) (addrs : List Addr) : Addr → Node → Bool :=
 def setSpec (d : Node) (addrs : List Addr) (s : Scalar) : Node :=
   d.mapAt (isTarget d addrs) (putScalar s)
 
+/-- Only scalars carry anchors (below the root): the documents of the C03 model class
+(anchored containers with aliases are out of model). -/
+def ScalarAnchors (d : Node) : Prop :=
+  ∀ y n, y ≠ [] → d.get? y = some n → n.anchor.isSome = true → n.isScalar = true
+
+/-- The matched addresses lie below the root, are not set members, and lead to scalars of `d`. -/
+def MatchedScalars (d : Node) (addrs : List Addr) : Prop :=
+  ∀ a ∈ addrs, a ≠ [] ∧ lastIsMember a = false ∧ ∃ n, d.get? a = some n ∧ n.isScalar = true
+
+/-- Anchor well-formedness: all nodes (below the root) that carry one anchor name are equal —
+an anchor together with its aliases, in the alias-expanded document. -/
+def AnchorWF (d : Node) : Prop :=
+  ∀ y y' n n', y ≠ [] → y' ≠ [] → d.get? y = some n → d.get? y' = some n' →
+    n.anchor.isSome = true → n.anchor = n'.anchor → n = n'
+
 mutual
 /-- Change exactly the node at address `q` by `g` (nothing if `q` leads nowhere). -/
 def Node.graftAt (g : Node → Node) : Node → Addr → Node
@@ -70,6 +85,39 @@ def graftEntries (g : Node → Node) : List (Key × Node) → Key → Addr → L
     if k' = k then (k', c.graftAt g rest) :: es else (k', c) :: graftEntries g es k rest
 end
 
+/-! ## C09: what a creation does -/
+
+/-- The reference under which `createHere n seg …` places the new element. -/
+def createdRef (n : Node) (seg : PSeg) : Ref :=
+  match n with
+  | .seq _ _ => .idx (match intOfSeg seg with | some i => i.toNat | none => 0)
+  | _ => .key (match seg with | .key s => .str s | .index _ => .int 0)
+
+/-- `Follows d segs q n`: every segment of `segs` resolves to an existing child (`lookSeg … = found`),
+one after the other from `d`, none of the children entered is `null`; the walk ends at address `q`,
+node `n`. -/
+inductive Follows : Node → List PSeg → Addr → Node → Prop
+  | here (d : Node) : Follows d [] [] d
+  | step {d : Node} {seg : PSeg} {ref : Ref} {c : Node} {segs : List PSeg} {q : Addr} {n : Node} :
+      lookSeg d seg = .found ref → d.child? ref = some c → c ≠ .scalar none .null →
+      Follows c segs q n → Follows d (seg :: segs) (ref :: q) n
+
+/-- The three things a successful `_get_optional_nodes` over a straight-line path can have done. -/
+inductive CreateOutcome (leaf : Scalar) (d : Node) (segs : List PSeg) (r : Created) : Prop
+  /-- the whole path exists: nothing changes, the node at its end is handed out -/
+  | present (n : Node) : Follows d segs r.addr n → r.doc = d → CreateOutcome leaf d segs r
+  /-- a `null` on the way is handed out whatever segments remain; nothing changes (finding C09-F2) -/
+  | nullRelay (pre : List PSeg) (seg : PSeg) (rest : List PSeg) (q : Addr) (n : Node) (ref : Ref) :
+      segs = pre ++ seg :: rest → Follows d pre q n → lookSeg n seg = .found ref →
+      n.child? ref = some (.scalar none .null) → r.doc = d → r.addr = q ++ [ref] →
+      CreateOutcome leaf d segs r
+  /-- `pre` exists and ends at the node `n` (address `q`) in which `seg` is missing: the document is
+  the original with exactly that node replaced by `createHere n seg rest` -/
+  | created (pre : List PSeg) (seg : PSeg) (rest : List PSeg) (q : Addr) (n n' : Node) :
+      segs = pre ++ seg :: rest → Follows d pre q n → lookSeg n seg = .missing →
+      createHere n seg rest leaf = .ok n' → r.doc = d.graftAt (fun _ => n') q →
+      r.addr = q ++ createdRef n seg :: fillAddr rest → CreateOutcome leaf d segs r
+
 /-! Plain data: the document with every anchor name erased (aliases are already expanded in
 `Node`). -/
 mutual
@@ -85,5 +133,104 @@ def plainEntries : List (Key × Node) → List (Key × Node)
   | [] => []
   | (k, c) :: es => (k, c.plain) :: plainEntries es
 end
+
+/-! ## Histories on plain data (C03 `history_refines`)
+
+The plain-data model knows three elementary edits; none of them looks at an anchor. -/
+
+inductive POp
+  /-- every node whose address satisfies `T` becomes the scalar `s` -/
+  | put (T : Addr → Bool) (s : Scalar)
+  /-- the nodes at the addresses `S` are removed -/
+  | remove (S : List Addr)
+  /-- the node at address `q` is replaced by `sub` -/
+  | graft (q : Addr) (sub : Node)
+
+def POp.apply (pd : Node) : POp → Node
+  | .put T s => pd.mapAt (fun y _ => T y) (putScalar s)
+  | .remove S => pd.removeAll S
+  | .graft q sub => pd.graftAt (fun _ => sub) q
+
+def runPlain : Node → List POp → Node
+  | pd, [] => pd
+  | pd, o :: os => runPlain (o.apply pd) os
+
+/-- Mapping keys are pairwise different, everywhere in the document (true of every loaded YAML
+document; it makes every node reachable by its address). -/
+def keysDistinct : List Key → Bool
+  | [] => true
+  | k :: ks => !ks.contains k && keysDistinct ks
+
+mutual
+def Node.keysNodup : Node → Bool
+  | .seq _ items => keysNodupList items
+  | .map _ es => keysDistinct (es.map Prod.fst) && keysNodupEntries es
+  | .set _ _ => true
+  | .scalar _ _ => true
+def keysNodupList : List Node → Bool
+  | [] => true
+  | c :: cs => c.keysNodup && keysNodupList cs
+def keysNodupEntries : List (Key × Node) → Bool
+  | [] => true
+  | (_, c) :: es => c.keysNodup && keysNodupEntries es
+end
+
+/-- The addresses of the nodes of `d` that satisfy `p` — as a predicate on addresses alone. -/
+def targetsAt (d : Node) (p : Addr → Node → Bool) : Addr → Bool :=
+  fun y => match d.get? y with
+    | some n => p y n
+    | none => false
+
+/-- The plain-data reading of one `_update_node` call for the matched address `a` in the document
+`d`: the node at `a` and the nodes carrying its anchor name (its aliases) become `s`. -/
+def stepAbs (d : Node) (a : Addr) (s : Scalar) : POp :=
+  .put (fun y => !(a == []) && targetsAt d (isRef a ((d.get? a).bind Node.anchor)) y) s
+
+/-- the scalar `make_new_node` writes in the step for `a` (`null` when the step writes nothing) -/
+def stepScalar (v : Scalar) (fmt : Fmt) (d : Node) (a : Addr) : Scalar :=
+  match d.get? a with
+  | some n => (match newScalar n.anchor.isSome v fmt with
+    | .ok s => s
+    | .error _ => .null)
+  | none => .null
+
+/-- the plain-data reading of a whole `set_value`: one `put` per matched address, in order -/
+def setAbs (v : Scalar) (fmt : Fmt) : Node → List Addr → List POp
+  | _, [] => []
+  | d, a :: rest => stepAbs d a (stepScalar v fmt d a) ::
+      (match setStep v fmt d a with
+       | .ok d' => setAbs v fmt d' rest
+       | .error _ => [])
+
+/-- the document after one operation of a history (a failing operation changes nothing) -/
+def Op.step (d : Node) (op : Op) : Node :=
+  match op.apply d with
+  | .ok d' => d'
+  | .error _ => d
+
+/-- `OpAbs d op pops`: on plain data, the operation `op` performed in the (anchored) document `d`
+is the sequence `pops` of elementary edits. -/
+inductive OpAbs : Node → Op → List POp → Prop
+  | failed {d : Node} {op : Op} {e : Err} : op.apply d = .error e → OpAbs d op []
+  | set {d d' : Node} {addrs : List Addr} {v : Scalar} {fmt : Fmt} :
+      setValue v fmt d addrs = .ok d' → OpAbs d (.set addrs v fmt) (setAbs v fmt d addrs)
+  | delete {d : Node} {addrs : List Addr} : [] ∉ addrs → OpAbs d (.delete addrs) [.remove addrs]
+  | createNone {d d' : Node} {segs : List PSeg} {v : Scalar} {fmt : Fmt} {leaf : Scalar} {r : Created} :
+      wrapType v = .ok leaf → d.createPath leaf segs = .ok r → r.doc = d →
+      setStep v fmt d r.addr = .ok d' →
+      OpAbs d (.create segs v fmt) [stepAbs d r.addr (stepScalar v fmt d r.addr)]
+  | created {d d' : Node} {segs : List PSeg} {v : Scalar} {fmt : Fmt} {leaf : Scalar} {r : Created}
+      {pre : List PSeg} {seg : PSeg} {rest : List PSeg} {q : Addr} {n n' : Node} :
+      wrapType v = .ok leaf → d.createPath leaf segs = .ok r → segs = pre ++ seg :: rest →
+      Follows d pre q n → lookSeg n seg = .missing → createHere n seg rest leaf = .ok n' →
+      r.doc = d.graftAt (fun _ => n') q → setStep v fmt r.doc r.addr = .ok d' →
+      OpAbs d (.create segs v fmt)
+        [.graft q n'.plain, stepAbs r.doc r.addr (stepScalar v fmt r.doc r.addr)]
+
+/-- the plain-data reading of a history, operation by operation along the run -/
+inductive HistAbs : Node → List Op → List POp → Prop
+  | nil (d : Node) : HistAbs d [] []
+  | cons {d : Node} {op : Op} {ops : List Op} {pops pops' : List POp} :
+      OpAbs d op pops → HistAbs (op.step d) ops pops' → HistAbs d (op :: ops) (pops ++ pops')
 
 end Ypv
